@@ -445,7 +445,22 @@ def rcfg_config_verbatim(ctx):
     config_field_integrity(ctx, "C02.CFG", "batch_requests_config")
 
 
-RULES = [r1_gate_before_work, r2_classifier_agreement, r3_append_discipline, r4_nothing_outside_array, r5_append_writes_every_entry, r6_batch_container_is_inert, rcfg_config_verbatim]
+
+def _borrowed(modname, fname):
+    def run(ctx):
+        import importlib
+        mod = importlib.import_module("jrsa.rules." + modname)
+        return getattr(mod, fname)(ctx)
+    run.__name__ = "%s_%s" % (modname, fname)
+    return run
+
+
+# "a batch consisting only of notifications gets no reply": over WebSocket the reply write is gated by the response kind
+# (C01.R3) - RpcService::batch signals "no reply" with MethodResponse::notification()
+BORROWED = [_borrowed("c01", "r3_ws_reply_once")]
+
+
+RULES = [r1_gate_before_work, r2_classifier_agreement, r3_append_discipline, r4_nothing_outside_array, r5_append_writes_every_entry, r6_batch_container_is_inert, rcfg_config_verbatim] + BORROWED
 
 LEVEL_TEXT = (
     "Structural necessary conditions of batch handling decided from the type-checked program: the gates that must precede "
